@@ -120,6 +120,8 @@ type DiskObs struct {
 	State      string      `json:"state"` // "absent" | "ok" | "undecodable: ..."
 	Anchors    []AnchorObs `json:"anchors,omitempty"`
 	StateSum   string      `json:"state_sum,omitempty"`
+	StateIno   uint64      `json:"state_ino,omitempty"`
+	TombIno    uint64      `json:"tomb_ino,omitempty"`
 	Tomb       string      `json:"tomb"`
 	Tombstones []KeyObs    `json:"tombstones,omitempty"`
 	TombSum    string      `json:"tomb_sum,omitempty"`
@@ -138,6 +140,11 @@ type Rec struct {
 	Live     []KeyObs `json:"live,omitempty"`
 	LiveNil  bool     `json:"live_nil,omitempty"`
 	HasTA    bool     `json:"has_ta,omitempty"`
+	// Follow is the trust set after one more AutoTA tick on the SAME resolver
+	// object with the root refusing the query (no restart in between).
+	Follow    []KeyObs `json:"follow,omitempty"`
+	FollowNil bool     `json:"follow_nil,omitempty"`
+	FollowRan bool     `json:"follow_ran,omitempty"`
 	After    *DiskObs `json:"after,omitempty"`
 	Queries  int      `json:"queries,omitempty"` // DNSKEY queries the scripted root answered during the refresh
 	Panic    string   `json:"panic,omitempty"`
